@@ -341,7 +341,11 @@ func RerunPerturbed(h *History, scratch, label string, p Perturb) (*History, *Pe
 				out.Err = fmt.Sprintf("restart after block %d failed: %v", b.Height, err)
 				break
 			}
-			nodes = append(nodes, nn)
+			// the stopped process is gone: its stores are closed (a node holds a few hundred MB of
+			// database caches) and its directory is removed
+			n.Close()
+			os.RemoveAll(n.Dir)
+			nodes[len(nodes)-1] = nn
 			n = nn
 			st.Restarts++
 			if ninfo.LastBlockHeight != b.Height || !bytes.Equal(ninfo.LastBlockAppHash, o.AppHash) {
@@ -607,7 +611,8 @@ func QueryStability(h *History, scratch, label string, seed int64) (*QueryStats,
 			if err := copyDir(n.Dir, ndir); err == nil {
 				dirs = append(dirs, ndir)
 				if nn, _, err := OpenNode(ndir); err == nil {
-					nodes = append(nodes, nn)
+					n.Close()
+					nodes[len(nodes)-1] = nn
 					n = nn
 					burst(false)
 				}
